@@ -78,6 +78,22 @@ func c12InitFailure() {
 	dsim.SetDate(time.Date(2026, 5, 1, 0, 0, 0, 0, time.UTC))
 	n := 1 + dsim.Choose(4)
 	failAt := dsim.Choose(n)
+	cfgFail := dsim.Choose(3) == 2 // all endpoints are fine, the configuration is not
+	if cfgFail {
+		failAt = -1
+		switch dsim.Choose(4) {
+		case 0:
+			cfg.version = 0 // missing version
+		case 1:
+			cfg.sysID = 0
+		case 2:
+			k := genKey()
+			cfg.outKey, cfg.version = &k, 1 // outgoing key requires v2
+		case 3:
+			cfg.dialectKind = 5 // a dialect with duplicate ids
+		}
+		count("fault:init-config-failure")
+	}
 	kinds := []int{epTCPServer, epUDPServer, epTCPClient, epUDPClient, epSerial, epBroadcast, epCustom}
 	for i := 0; i < n; i++ {
 		k := kinds[dsim.Choose(len(kinds))]
@@ -118,7 +134,11 @@ func c12InitFailure() {
 	count("fault:init-failure")
 	err := e.startNode()
 	if err == nil {
-		dsim.Failf("init-failure-clean", "Initialize succeeded although endpoint %d (%s) cannot be set up", failAt, epNames[e.cfg.eps[failAt].kind])
+		if cfgFail {
+			dsim.Failf("init-failure-clean", "Initialize succeeded with an invalid configuration (%s)", cfg)
+		} else {
+			dsim.Failf("init-failure-clean", "Initialize succeeded although endpoint %d (%s) cannot be set up", failAt, epNames[e.cfg.eps[failAt].kind])
+		}
 		e.node.Close()
 		return
 	}
@@ -131,6 +151,12 @@ func c12InitFailure() {
 	if open := e.w.OpenNodeResources(); len(open) > 0 {
 		dsim.Failf("init-failure-clean", "Initialize failed (%v) at endpoint %d of %d (%s) but left: %v", err, failAt, n, e.cfg, open)
 		return
+	}
+	for _, ep := range e.cfg.eps {
+		if ep.kind == epCustom && cfgFail && ep.pipe.CloseCount() > 1 {
+			dsim.Failf("init-failure-clean", "the custom transport was closed %d times by a failing Initialize", ep.pipe.CloseCount())
+			return
+		}
 	}
 	for _, c := range e.w.Conns() {
 		if c.NodeSide && c.Kind == "serial" && !c.Closed() {
@@ -198,6 +224,7 @@ func c12Body() func(h []dsim.Rec) {
 	if noRead {
 		count("fault:peer-not-reading")
 	}
+	e.peerAPHeartbeats = cfg.srEnable && cfg.dialectKind == 0
 	d := &driverSet{e: e}
 	consMode := dsim.Choose(4) // 0,1 running; 2 stops after k events; 3 never started
 	cons := &consumer{e: e, pace: dsim.Choose(3)}
